@@ -715,6 +715,70 @@ def check_delete(mon, base, form, chain0, U, rng, nt):
                 env.load(env.data, env.data_id)
 
 
+def check_delete_new_param(mon, rng):
+    """Queries parameterised with an object CREATED IN THE SAME SESSION (auto primary key, not flushed yet): delete(bulk=..)
+    must remove exactly the rows the query selects -- the new rows that reference the new object -- and nothing else."""
+    qdiff, env, ctx = mon.qdiff, mon.env, mon.ctx
+    schema, orm, ns = env.schema, env.orm, env.ns
+    data = qdiff.dec(env.data)
+    def kwargs(row, over):
+        e = schema.ents[row['_cls']]
+        kw = {}
+        for a in e.attrs.values():
+            if a.name in over or a.kind == 'pk': continue
+            if a.is_scalar:
+                if row.get(a.name) is not None: kw[a.name] = row[a.name]
+            elif a.is_ref and a.kind == 'req' and not a.reverse.is_ref and row.get(a.name) is not None:
+                kw[a.name] = ns[schema.ents[a.typ].root][row[a.name]]
+        kw.update(over)
+        return kw
+    pairs = [(e.name, a.name, a.typ) for e in schema.roots() for a in e.own_attrs
+             if a.is_ref and not a.reverse.is_ref and not schema.pk_composite(a.typ)]
+    for E, attr, T in pairs:
+        if not data.get(E) or not data.get(schema.ents[T].root): continue
+        ent = ns[E]
+        cols = ', '.join('"%s"' % c for c in ent._pk_columns_)
+        sql = 'select %s from "%s"' % (cols, ent._table_)
+        for form, text in (('gen', 'def _f(t): return select(x for x in %s if x.%s == t)' % (E, attr)),
+                           ('lam', 'def _f(t): return %s.select(lambda x: x.%s == t)' % (E, attr)),
+                           ('str', 'def _f(t): return select(%r, _G, {"t": t})' % ('x for x in %s if x.%s == t' % (E, attr)))):
+            loc = {}
+            exec(compile(text, '<c24 delete battery>', 'exec'), ns, loc)
+            for bulk in (True, False):
+                for flushed in (False, True, 'rows_after_query'):
+                    p = qdiff.Program('x for x in %s if x.%s == t' % (E, attr), {}, form,
+                                      [['new_param', T, str(flushed)], ['delete', bulk]], {'ent': E, 'var': 'x', 'cond': 'x.%s == t' % attr})
+                    try:
+                        with orm.db_session:
+                            existing = sorted(env.db.select(sql), key=repr)
+                            trow = rng.choice(data[schema.ents[T].root])
+                            t = ns[trow['_cls']](**kwargs(trow, {}))
+                            k = rng.randint(1, 3)
+                            q_early = loc['_f'](t) if flushed == 'rows_after_query' else None    # query built before the rows exist
+                            for i in range(k):
+                                erow = rng.choice(data[E])
+                                over = {attr: t}
+                                if schema.pk_composite(E):
+                                    for pkn in schema.pk(E):
+                                        a = schema.ents[E].attrs[pkn]
+                                        if pkn != attr: over[pkn] = ('zz%d' % i) if a.typ == 'str' else 900 + i
+                                ns[erow['_cls']](**kwargs(erow, over))
+                            if flushed is True: orm.flush()
+                            n = (q_early or loc['_f'](t)).delete(bulk=bulk)
+                            after = sorted(env.db.select(sql), key=repr)
+                            orm.rollback()
+                    except Exception as e:
+                        ctx.count('method.delete_new_param.pony_raised'); ctx.count('raised.' + type(e).__name__); ctx.count('outcome.pony_raised')
+                        continue
+                    extra = [r for r in after if r not in existing]
+                    ok = all(r in after for r in existing) and len(extra) == (1 if schema.ents[T].root == schema.ents[E].root else 0)
+                    ctx.count('delete_new_param.return_value.' + ('rows_selected' if n == k else 'other'))
+                    mon.book('delete_new_param', p, 'agree' if ok else 'disagree',
+                             'delete(bulk=%s) of a query parameterised with a %s new %s object: %d new %s rows reference it'
+                             % (bulk, {True: 'flushed', False: 'NOT yet flushed', 'rows_after_query': 'new (query built before the referencing rows were created)'}[flushed], T, k, E),
+                             {'remaining_rows': len(existing)}, {'remaining_rows': len(after), 'returned': n})
+
+
 def bulk_delete_having_shape(qdiff, env, base):
     """The condition aggregates a collection path that pony turns into LEFT JOIN + GROUP BY + HAVING."""
     import ast
@@ -752,6 +816,7 @@ def run(ctx):
         data = qdiff.gen_data(schema, rng, flavor=rng.choice(['mixed', 'dense', 'mixed']))
         env.load(data, 'D%d.%d.%d' % (ctx.seed, ctx.shard, ds))
         ctx.count('datasets')
+        check_delete_new_param(mon, rng)
         for k in range(sz['bases']):
             base = gen_base(gen, rng, schema, small=(k == 0 and ds < sz['nested']))
             if qdiff.lint_program(base.src) is not None or qdiff.has_ifexp(qdiff.Program(base.src)): continue
@@ -768,6 +833,7 @@ def run(ctx):
     ctx.floor('method.limit.agree', 1000)
     ctx.floor('method.nested_limit.agree', 300)
     ctx.floor('method.result_access.agree', 1500)
+    ctx.floor('method.delete_new_param.agree', 40)
     for first in ('idx', 'slice', 'slice2', 'len', 'next', 'list', 'reversed'):
         ctx.floor('result_access.first_%s.agree' % first, 50)
 
